@@ -1,10 +1,12 @@
 CONSTANTS
   HashMode = "perfect"
   Bug = "none"
-  Sweeps = {"small"}
+  Sweeps = {"small", "hsmall", "xsmall"}
   PairDepth = 2
   NearDepth = 2
   DeepDepth = 3
+  HierDepth = 3
+  XDepth = 2
   EmitCases = FALSE
 INIT Init
 NEXT Next
